@@ -40,5 +40,7 @@ for i, r in sorted(rows.items()):
 out += ['', '%d valid mutants, %d reported.%s' % (valid, rep, ('  Not reported: ' + ', '.join(missed)) if missed else ''), '']
 if 'm-c13-generatorexit-handler-removed' in missed:
     out += ['`m-c13-generatorexit-handler-removed` is equivalent: with the handler in `feed()` gone, `run()`\'s own `finally` (fix 5597ad8) still closes the socket of the abandoned loop.', '']
+if 'm-revert-f33-3e5faa7' in missed:
+    out += ['`m-revert-f33-3e5faa7` brings back a slowness (quadratic time for a frame of many tiny BFINAL blocks), not a violation: the loop does return; F33 was repaired without a check on purpose (DESIGN 5.3).', '']
 open(os.path.join(ROOT, 'mutants', 'SUMMARY.md'), 'w').write('\n'.join(out))
 print(out[-3] if missed else out[-2])
